@@ -267,6 +267,10 @@ func (c *Call) ExecRaw(api API) {
 	}
 	defer func() {
 		if r := recover(); r != nil {
+			if rr, ok := r.(RpcRefused); ok {
+				c.St, c.Code, c.PanicV = "ERR", 10099, "rpc layer: "+rr.Msg
+				return
+			}
 			c.St = "PANIC"
 			c.PanicV = fmt.Sprint(r)
 			if len(c.PanicV) > 200 {
@@ -329,8 +333,14 @@ func (c *Call) ExecRaw(api API) {
 			c.setPostAttr(r.Resok.File_attributes)
 		}
 	case "WRITE":
+		wdata := c.data()
 		r := api.NFSPROC3_WRITE(nfstypes.WRITE3args{File: c.fh(), Offset: nfstypes.Offset3(c.off()), Count: nfstypes.Count3(c.Cnt),
-			Stable: nfstypes.Stable_how(c.Stable), Data: c.data()})
+			Stable: nfstypes.Stable_how(c.Stable), Data: wdata})
+		// the argument memory belongs to the caller again once the call has returned (the RPC server recycles its
+		// request buffers): reuse it, so that a server that kept a reference to it shows
+		for i := range wdata {
+			wdata[i] = 0xEE
+		}
 		if c.setStatus(r.Status) {
 			c.RCount = int(r.Resok.Count)
 			c.RCommitted = int(r.Resok.Committed)
